@@ -11,6 +11,7 @@ var inventoryJSON []byte
 type confirmed struct {
 	Inventory map[string]string `json:"inventory"`
 	Sources   map[string]Source `json:"sources"`
+	Files     map[string]string `json:"files"`
 }
 
 func loadConfirmed() confirmed {
@@ -34,3 +35,15 @@ func Confirmed() map[string]string { return loadConfirmed().Inventory }
 
 // ConfirmedSources holds the declarations of the unexported functions of that tree.
 func ConfirmedSources() map[string]Source { return loadConfirmed().Sources }
+
+// ConfirmedFiles: the file each function of that tree was declared in. File-scoped
+// rules ("every function of heap/heap.go") follow the function, not the file: a
+// function moved to another file keeps its scope, and a function that is new belongs
+// to the scopes of the package it appears in.
+func ConfirmedFiles() map[string]string {
+	c := loadConfirmed()
+	if c.Files == nil {
+		return map[string]string{}
+	}
+	return c.Files
+}
